@@ -894,7 +894,14 @@ class SymMixin:
                     return ListV([self.one_of_sym((name, kterm(o), i), [r.items[i] for r in res]) for i in range(n)])
                 if all(isinstance(r, tuple) for r in res) and len({len(r) for r in res}) == 1:
                     n = len(res[0])  # str.partition and friends: one candidate-correlated symbol per position
-                    return tuple(self.one_of_sym((name, kterm(o), tuple(kterm(x) for x in a), i), [r[i] for r in res]) for i in range(n))
+                    outs = tuple(self.one_of_sym((name, kterm(o), tuple(kterm(x) for x in a), i), [r[i] for r in res]) for i in range(n))
+                    if name in ("partition", "rpartition"):
+                        for i, x in enumerate(outs):
+                            if isinstance(x, Sym):
+                                x.info["part_of"], x.info["part_index"] = o, i
+                            else:
+                                return outs  # a constant part: no bookkeeping
+                    return outs
                 return self.one_of_sym((name, kterm(o)), res)
         k = self.kind_of(o, run) if isinstance(o, Sym) else {
             bytes: "bytes", str: "str", int: "int", float: "float", _dt.datetime: "datetime", _dt.timedelta: "timedelta",
@@ -913,6 +920,10 @@ class SymMixin:
                 return Sym(("join", kterm(o), tuple(kterm(x) for x in parts)), "bytes", len=total, parts=parts)
         at = tuple(kterm(x) for x in a) + tuple((kk, kterm(v)) for kk, v in sorted(kw.items()))
         site = self.site(node)
+        if k in ("str", "bytes", "any") and name in ("partition", "rpartition") and len(a) == 1 and not kw and \
+                (k != "any" or isinstance(a[0], str)):
+            kind = "bytes" if k == "bytes" else "str"  # always a 3-tuple: (head, separator or empty, tail)
+            return tuple(Sym((name, t, at, i), kind, part_of=o, part_index=i) for i in range(3))
         if k == "bytes" and name == "decode":
             self.may_raise(run, "UnicodeDecodeError", site, "bytes.decode of wire data")
             codec = (a[0] if a else kw.get("encoding", "utf-8"), a[1] if len(a) > 1 else kw.get("errors", "strict"))
@@ -960,6 +971,11 @@ class SymMixin:
             return Sym((name, t), "bool" if name == "is_integer" else "str")
         if k == "bytes" and name in ("hex",):
             return Sym((name, t), "str")
+        if name == "join" and o in ("", b"") and len(a) == 1 and isinstance(a[0], (tuple, ListV)):
+            parts = list(a[0].items if isinstance(a[0], ListV) else a[0])
+            if len(parts) == 3 and all(isinstance(x, Sym) and x.info.get("part_index") == i for i, x in enumerate(parts)) \
+                    and len({id(x.info.get("part_of")) for x in parts}) == 1:
+                return parts[0].info["part_of"]  # head + separator + tail of one partition is the string that was partitioned
         if k == "str" and name in ("lower", "upper", "strip", "capitalize", "removesuffix", "removeprefix", "format", "join"):
             return Sym((name, t, at), "str")
         if k == "str" and name in ("startswith", "endswith", "isidentifier", "islower", "isupper", "isdigit"):
